@@ -54,6 +54,8 @@ struct Params {
     sel: u8,     // 0 none, 1 from_seq in range, 2 from_seq out of range, 3 message id known, 4 unknown id, 5 id of a non-message frame, 6 both
     summary: u8, // 0 markdown, 1 artifact id, 2 both, 3 neither
     pick: u64,
+    big: Option<usize>, // Append(4): size in bytes of the frame line INCLUDING its newline (exact when the thread has a message)
+    esc: bool,          // big content full of characters the serializer escapes (written in many pieces)
 }
 
 #[derive(Clone, Debug)]
@@ -86,11 +88,63 @@ impl Facts {
     }
 }
 
-const UNKNOWN_IDS: [&str; 4] = ["00000000-0000-4000-8000-00000000dead", "not a uuid", "", "%2e%2e%2fx"];
+/// Unknown / malformed thread ids.  The first four are the plain ones; the rest are built from PATH
+/// GRAMMAR (the id is pasted into `continuity_streams/<id>.jsonl` and friends): parent / current
+/// directory, absolute, separators, percent-encoded separators, NUL, over-long, and ALIASES of files
+/// that exist (`{0}` = id of the first thread of the history): `../events` names the truth log
+/// itself, `./{0}` and `{0}.mr.v1` name caches of a real thread.
+const UNKNOWN_IDS: [&str; 40] = [
+    "00000000-0000-4000-8000-00000000dead", "not a uuid", "", "%2e%2e%2fx",
+    "../events", "..", ".", "a/../../events", "/abs", "/", "a/b", "../x", "../../x", "..%2Fevents", "%2F", "x\0y", "\0",
+    "<long255>", "<long5000>", "../events.jsonl", "../continuity_streams/{0}", "./{0}", "{0}.mr.v1", "{0}.comp.v1", "{0}/", "{0}/.",
+    "../continuities", "../events\0", " ", "\u{e9}/../events", "..\\events", "{0}\n", "../../data/events", "./../events", "..//events",
+    "../events/", "{0}/../../events", "../ws/x", "../continuity_streams/../events", "{0}.mr.seek.v1",
+];
+const ID_EVENTS: u64 = 4; // index of "../events"
+
+fn unknown_id(pick: u64, first: Option<&String>) -> String {
+    let t = UNKNOWN_IDS[(pick % UNKNOWN_IDS.len() as u64) as usize];
+    match t {
+        "<long255>" => "a".repeat(255),
+        "<long5000>" => "../".repeat(1000) + &"b".repeat(2000),
+        _ => t.replace("{0}", first.map(|s| s.as_str()).unwrap_or("none")),
+    }
+}
 
 fn thread_id(hs: &[Hdr], th: usize, pick: u64) -> String {
     let ids = created_ids(hs);
-    ids.get(th).cloned().unwrap_or_else(|| UNKNOWN_IDS[(pick % 4) as usize].to_string())
+    ids.get(th).cloned().unwrap_or_else(|| unknown_id(pick, ids.first()))
+}
+
+fn digits(n: u64) -> usize {
+    n.to_string().len()
+}
+
+/// Content of a posted message.  With `p.big = Some(total)` the content is sized so that the frame
+/// line the store writes is exactly `total` bytes including its newline: the last message frame of
+/// the thread is the template (same actor / origin, uuid ids and 13-digit timestamps have fixed
+/// width; the seq digits are accounted for).
+fn message_content(stream: &[&Hdr], p: &Params) -> String {
+    let Some(total) = p.big else { return format!("msg {}", p.pick) };
+    let unit = if p.esc { "a\n\"" } else { "a" }; // 3 bytes raw, 5 bytes escaped
+    let unit_out = if p.esc { 5 } else { 1 };
+    let tmpl = stream.iter().rev().find_map(|h| match &h.ev.kind {
+        rip_kernel::EventKind::ContinuityMessageAppended { content, .. } => {
+            let line = serde_json::to_string(&h.ev).map(|s| s.len()).unwrap_or(0);
+            let esc_len = serde_json::to_string(content).map(|s| s.len() - 2).unwrap_or(0);
+            Some((line - esc_len, digits(h.seq)))
+        }
+        _ => None,
+    });
+    let next_seq = stream.last().map(|h| h.seq + 1).unwrap_or(0);
+    let overhead = match tmpl {
+        Some((fixed, d)) => fixed + digits(next_seq) - d + 1,
+        None => 0,
+    };
+    let want = total.saturating_sub(overhead);
+    let mut c = unit.repeat(want / unit_out);
+    c.push_str(&"b".repeat(want % unit_out));
+    c
 }
 
 fn do_cap(env: &Env, hs: &[Hdr], cp: Cp, th: usize, p: &Params) -> Facts {
@@ -133,7 +187,7 @@ fn do_cap(env: &Env, hs: &[Hdr], cp: Cp, th: usize, p: &Params) -> Facts {
         Cp::Append(t) => {
             let mid = msgs.last().map(|h| h.id.clone()).unwrap_or_else(|| "m0".into());
             let r = match t {
-                4 => st.append_message(&id, a, o, format!("msg {}", p.pick)),
+                4 => st.append_message(&id, a, o, message_content(&stream, p)),
                 5 => st.append_run_spawned(&id, &mid, "run-1", a, o),
                 13 => st.append_run_ended(&id, &mid, "run-1", "completed".into(), a, o),
                 14 => st.append_tool_side_effects(
@@ -253,79 +307,225 @@ struct Outcome {
     appended_by_silent: u64,
     oracle_checks: u64,
     final_frames: usize,
+    big_lines: Vec<usize>,
+    hook_points: u64,
+}
+
+// ---------- monitor inside EventLog::append (rip_kernel::verif hook, points log.*) ----------
+// At log.locked the file is read (B0; must be whole lines).  At log.body_written / log.nl_written the
+// file must be B0 or B0 + ONE whole newline-terminated JSON frame - never B0 + part of a line: a
+// process dying there, or a reader / second handle running there, would meet a partial frame.  At
+// log.flushed it must be B0 + exactly one whole frame.
+#[derive(Default)]
+struct Mon {
+    path: Option<std::path::PathBuf>,
+    base: Vec<u8>,
+    violations: Vec<(String, String)>,
+    points: u64,
+}
+static MON: std::sync::Mutex<Option<Mon>> = std::sync::Mutex::new(None);
+
+fn mon_set_path(p: Option<std::path::PathBuf>) {
+    let mut g = MON.lock().unwrap_or_else(|e| e.into_inner());
+    let m = g.get_or_insert_with(Mon::default);
+    m.path = p;
+    m.base.clear();
+}
+fn mon_drain() -> (Vec<(String, String)>, u64) {
+    let mut g = MON.lock().unwrap_or_else(|e| e.into_inner());
+    let m = g.get_or_insert_with(Mon::default);
+    let n = m.points;
+    m.points = 0;
+    (std::mem::take(&mut m.violations), n)
+}
+fn whole_lines(b: &[u8]) -> bool {
+    b.is_empty() || b[b.len() - 1] == b'\n'
+}
+fn one_frame(rest: &[u8]) -> bool {
+    rest.len() >= 2 && rest[rest.len() - 1] == b'\n' && !rest[..rest.len() - 1].contains(&b'\n') && serde_json::from_slice::<rip_kernel::Event>(&rest[..rest.len() - 1]).is_ok()
+}
+fn install_hook() {
+    rip_kernel::verif::set_hook(Some(std::sync::Arc::new(|name: &'static str| {
+        if !name.starts_with("log.") || name == "log.before_lock" {
+            return;
+        }
+        let mut g = MON.lock().unwrap_or_else(|e| e.into_inner());
+        let Some(m) = g.as_mut() else { return };
+        let Some(path) = m.path.clone() else { return };
+        let cur = std::fs::read(&path).unwrap_or_default();
+        m.points += 1;
+        let cls = "partial_frame_in_file_during_append".to_string();
+        match name {
+            "log.locked" => {
+                if !whole_lines(&cur) {
+                    m.violations.push((format!("at {name}: the log ends in an unterminated line ({} bytes) when an append starts", cur.len()), "unterminated_line_before_append".into()));
+                }
+                m.base = cur;
+            }
+            _ => {
+                if cur.len() < m.base.len() || cur[..m.base.len()] != m.base[..] {
+                    m.violations.push((format!("at {name}: the bytes the log had at log.locked are no longer a prefix ({} -> {})", m.base.len(), cur.len()), "log_prefix_changed".into()));
+                } else {
+                    let rest = &cur[m.base.len()..];
+                    let ok = if name == "log.flushed" { one_frame(rest) } else { rest.is_empty() || one_frame(rest) };
+                    if !ok {
+                        let tail = rest.rsplit(|b| *b == b'\n').next().map(|t| t.len()).unwrap_or(0);
+                        m.violations.push((format!("at {name}: the file holds {} byte(s) of the frame being appended, the last {} of them an unterminated partial line (not old bytes + whole frames)", rest.len(), tail), cls));
+                    }
+                }
+            }
+        }
+    })));
+}
+
+// ---------- everything on disk except the truth log and the cache directory ----------
+fn tree_snapshot(root: &std::path::Path) -> std::collections::BTreeMap<String, (u64, u64)> {
+    fn walk(dir: &std::path::Path, root: &std::path::Path, out: &mut std::collections::BTreeMap<String, (u64, u64)>) {
+        let Ok(rd) = std::fs::read_dir(dir) else { return };
+        for e in rd.flatten() {
+            let p = e.path();
+            let rel = p.strip_prefix(root).unwrap_or(&p).to_string_lossy().to_string();
+            if rel == "data/continuity_streams" || rel == "data/events.jsonl" {
+                continue;
+            }
+            match e.file_type() {
+                Ok(t) if t.is_dir() => {
+                    out.insert(rel + "/", (0, 0));
+                    walk(&p, root, out);
+                }
+                _ => {
+                    let b = std::fs::read(&p).unwrap_or_default();
+                    let mut h = 0xcbf29ce484222325u64;
+                    for x in &b {
+                        h = (h ^ *x as u64).wrapping_mul(0x100000001b3);
+                    }
+                    out.insert(rel, (b.len() as u64, h));
+                }
+            }
+        }
+    }
+    let mut out = Default::default();
+    walk(root, root, &mut out);
+    out
+}
+fn tree_diff(a: &std::collections::BTreeMap<String, (u64, u64)>, b: &std::collections::BTreeMap<String, (u64, u64)>) -> Option<String> {
+    for (k, v) in b {
+        match a.get(k) {
+            None => return Some(format!("created {k} ({} bytes)", v.0)),
+            Some(w) if w != v => return Some(format!("changed {k} ({} -> {} bytes)", w.0, v.0)),
+            _ => {}
+        }
+    }
+    a.keys().find(|k| !b.contains_key(*k)).map(|k| format!("removed {k}"))
+}
+
+/// One call on the real store + the independent oracle around it.
+fn apply_call(env: &mut Env, call: &Call, out: &mut Outcome, dist: &mut Option<&mut RunResult>) {
+    let before = env.log_bytes();
+    let hs = parse_log(&before).unwrap_or_default();
+    let tree_before = tree_snapshot(&env.root);
+    let mut silent_req = false;
+    let mut name = String::new();
+    match call {
+        Call::Cap { cp, th, p } => {
+            let f = do_cap(env, &hs, *cp, *th, p);
+            out.unmodelled |= f.unmodelled;
+            silent_req = cp.read_only() || (matches!(cp, Cp::Auto | Cp::AutoSchedule) && (f.dry || f.stride0)) || f.resp_silent;
+            name = format!("{cp:?}").split('(').next().unwrap().to_string();
+            out.coq_calls.push(format!("KCap {} {} {}", cp.coq(), coq_nat((*th).min(99) as u64), f.coq()));
+            if *th >= created_ids(&hs).len() {
+                name = format!("{name}[id={:?}]", thread_id(&hs, *th, p.pick).chars().take(40).collect::<String>());
+            }
+            if let Some(d) = dist.as_deref_mut() {
+                d.bump(&format!("cap={}", name.split('[').next().unwrap()));
+                if silent_req {
+                    d.bump("silent_invocations");
+                }
+                if *th >= created_ids(&hs).len() {
+                    d.bump("unknown_thread_id");
+                    if p.pick % UNKNOWN_IDS.len() as u64 >= 4 {
+                        d.bump("unknown_thread_id_path_shaped");
+                    }
+                }
+            }
+        }
+        Call::Fault { x, th } => {
+            let ids = created_ids(&hs);
+            if let Some(id) = ids.get(*th) {
+                apply_fault(env, id, *x);
+            }
+            let xs = match x {
+                Fault::Delete => "XDelete",
+                Fault::CutLine => "XCutLine",
+                Fault::TearTail => "XTearTail",
+                _ => "XEmpty",
+            };
+            out.coq_calls.push(format!("KFault {xs} {}", coq_nat((*th).min(99) as u64)));
+            if let Some(d) = dist.as_deref_mut() {
+                d.bump(&format!("fault={}", x.name()));
+            }
+        }
+        Call::Restart => {
+            env.restart();
+            out.coq_calls.push("KRestart".into());
+            if let Some(d) = dist.as_deref_mut() {
+                d.bump("restart");
+            }
+        }
+    }
+    // ---- independent oracle
+    let after = env.log_bytes();
+    out.oracle_checks += 1;
+    let (hv, hp) = mon_drain();
+    out.hook_points += hp;
+    for (what, class) in hv {
+        out.violations.push((format!("{name}: {what}"), class));
+    }
+    if after.len() < before.len() || after[..before.len()] != before[..] {
+        out.violations.push((format!("{name}: previous log content is no longer a prefix ({} -> {} bytes)", before.len(), after.len()), "log_prefix_changed".into()));
+        out.obs.push(0);
+        return;
+    }
+    let suffix = &after[before.len()..];
+    match parse_log(suffix) {
+        Err(e) => out.violations.push((format!("{name}: appended bytes are not whole frames: {e}"), "partial_frame_appended".into())),
+        Ok(fs) => {
+            if silent_req && !fs.is_empty() {
+                out.appended_by_silent += 1;
+                let n0 = name.split('[').next().unwrap().to_string();
+                out.violations.push((format!("{name}: a read-only / dry-run / no-op invocation appended {} frame(s) (first: {})", fs.len(), ETYPES[fs[0].code as usize]), format!("silent_invocation_appended_{n0}")));
+            }
+            if let Call::Cap { p, cp: Cp::Append(4), .. } = call {
+                if p.big.is_some() && !suffix.is_empty() {
+                    out.big_lines.push(suffix.iter().position(|b| *b == b'\n').map(|i| i + 1).unwrap_or(0));
+                }
+            }
+        }
+    }
+    // a silent invocation may refresh caches under data/continuity_streams/ and nothing else
+    if silent_req && !matches!(call, Call::Cap { cp: Cp::EnsureDefault, .. }) {
+        out.oracle_checks += 1;
+        if let Some(d) = tree_diff(&tree_before, &tree_snapshot(&env.root)) {
+            out.violations.push((format!("{name}: a read-only / dry-run / no-op invocation {d} outside data/continuity_streams/"), "silent_invocation_wrote_outside_cache_dir".into()));
+        }
+    }
+    out.obs.push(parse_log(&after).map(|h| h.len() as u64).unwrap_or(0));
+}
+
+fn new_outcome() -> Outcome {
+    Outcome { obs: vec![], coq_calls: vec![], violations: vec![], unmodelled: false, appended_by_silent: 0, oracle_checks: 0, final_frames: 0, big_lines: vec![], hook_points: 0 }
 }
 
 fn run_case(calls: &[Call], dist: Option<&mut RunResult>) -> Outcome {
     let scratch = Scratch::new("c02");
     let mut env = Env::open(scratch.path());
-    let mut out = Outcome { obs: vec![], coq_calls: vec![], violations: vec![], unmodelled: false, appended_by_silent: 0, oracle_checks: 0, final_frames: 0 };
+    mon_set_path(Some(env.log_path()));
+    let mut out = new_outcome();
     let mut dist = dist;
     for call in calls {
-        let before = env.log_bytes();
-        let hs = parse_log(&before).unwrap_or_default();
-        let mut silent_req = false;
-        let mut name = String::new();
-        match call {
-            Call::Cap { cp, th, p } => {
-                let f = do_cap(&env, &hs, *cp, *th, p);
-                out.unmodelled |= f.unmodelled;
-                silent_req = cp.read_only() || (matches!(cp, Cp::Auto | Cp::AutoSchedule) && (f.dry || f.stride0)) || f.resp_silent;
-                name = format!("{cp:?}").split('(').next().unwrap().to_string();
-                out.coq_calls.push(format!("KCap {} {} {}", cp.coq(), coq_nat((*th).min(99) as u64), f.coq()));
-                if let Some(d) = dist.as_deref_mut() {
-                    d.bump(&format!("cap={name}"));
-                    if silent_req {
-                        d.bump("silent_invocations");
-                    }
-                    if *th >= created_ids(&hs).len() {
-                        d.bump("unknown_thread_id");
-                    }
-                }
-            }
-            Call::Fault { x, th } => {
-                let ids = created_ids(&hs);
-                if let Some(id) = ids.get(*th) {
-                    apply_fault(&env, id, *x);
-                }
-                let xs = match x {
-                    Fault::Delete => "XDelete",
-                    Fault::CutLine => "XCutLine",
-                    Fault::TearTail => "XTearTail",
-                    _ => "XEmpty",
-                };
-                out.coq_calls.push(format!("KFault {xs} {}", coq_nat((*th).min(99) as u64)));
-                if let Some(d) = dist.as_deref_mut() {
-                    d.bump(&format!("fault={}", x.name()));
-                }
-            }
-            Call::Restart => {
-                env.restart();
-                out.coq_calls.push("KRestart".into());
-                if let Some(d) = dist.as_deref_mut() {
-                    d.bump("restart");
-                }
-            }
-        }
-        // ---- independent oracle
-        let after = env.log_bytes();
-        out.oracle_checks += 1;
-        if after.len() < before.len() || after[..before.len()] != before[..] {
-            out.violations.push((format!("{name}: previous log content is no longer a prefix ({} -> {} bytes)", before.len(), after.len()), "log_prefix_changed".into()));
-            out.obs.push(0);
-            continue;
-        }
-        let suffix = &after[before.len()..];
-        match parse_log(suffix) {
-            Err(e) => out.violations.push((format!("{name}: appended bytes are not whole frames: {e}"), "partial_frame_appended".into())),
-            Ok(fs) => {
-                if silent_req && !fs.is_empty() {
-                    out.appended_by_silent += 1;
-                    out.violations.push((format!("{name}: a read-only / dry-run / no-op invocation appended {} frame(s) (first: {})", fs.len(), ETYPES[fs[0].code as usize]), format!("silent_invocation_appended_{name}")));
-                }
-            }
-        }
-        out.obs.push(parse_log(&after).map(|h| h.len() as u64).unwrap_or(0));
+        apply_call(&mut env, call, &mut out, &mut dist);
     }
+    mon_set_path(None);
     let fin = parse_log(&env.log_bytes()).unwrap_or_default();
     out.final_frames = fin.len();
     out.obs.extend(canon_log(&fin));
@@ -343,6 +543,8 @@ fn gen_params(r: &mut Rng) -> Params {
         sel: r.below(7) as u8,
         summary: *r.pick(&[0u8, 0, 0, 1, 2, 3]),
         pick: r.below(1000),
+        big: if r.chance(1, 12) { Some(*r.pick(&[8190usize, 8191, 8192, 8193, 8194, 16385, 30000])) } else { None },
+        esc: r.chance(1, 2),
     }
 }
 
@@ -388,82 +590,524 @@ fn gen_case(r: &mut Rng, long: bool) -> Vec<Call> {
     calls
 }
 
-/// every request-parameter combination of the read-only capabilities on one fixed history
-fn sweep_cases() -> Vec<Vec<Call>> {
-    let mut base = vec![Call::Cap { cp: Cp::EnsureDefault, th: 0, p: Params::default() }];
-    for i in 0..5 {
-        base.push(Call::Cap { cp: Cp::Append(4), th: 0, p: Params { pick: i, ..Default::default() } });
+fn cap(cp: Cp, th: usize, p: Params) -> Call {
+    Call::Cap { cp, th, p }
+}
+fn msgs(th: usize, n: u64) -> Vec<Call> {
+    (0..n).map(|i| cap(Cp::Append(4), th, Params { pick: i, ..Default::default() })).collect()
+}
+
+/// The states the read-only / dry-run capabilities branch on (name, setup history).
+fn sweep_states() -> Vec<(&'static str, Vec<Call>)> {
+    let ensure = || cap(Cp::EnsureDefault, 0, Params::default());
+    let sched = |stride: u64, execute: bool, mx: Option<u32>| cap(Cp::AutoSchedule, 0, Params { stride: Some(stride), execute: Some(execute), max_new: mx, ..Default::default() });
+    let mut base = vec![ensure()];
+    base.extend(msgs(0, 5));
+    base.push(cap(Cp::Append(8), 0, Params::default()));
+    base.push(cap(Cp::Checkpoint, 0, Params { stride: Some(2), ..Default::default() }));
+    let with = |b: &Vec<Call>, extra: Vec<Call>| {
+        let mut c = b.clone();
+        c.extend(extra);
+        c
+    };
+    // a summarizer job spawned and not ended (schedule with execute=false), un-checkpointed cut points left
+    let mut inflight = vec![ensure()];
+    inflight.extend(msgs(0, 6));
+    inflight.push(sched(2, false, Some(1)));
+    let mut backlog = vec![ensure()];
+    backlog.extend(msgs(0, 9));
+    let mut done = vec![ensure()];
+    done.extend(msgs(0, 6));
+    done.push(cap(Cp::Auto, 0, Params { stride: Some(2), max_new: Some(33), ..Default::default() }));
+    let mut ended = inflight.clone(); // a second schedule that runs its job to the end, then new backlog
+    ended.push(cap(Cp::AutoSchedule, 0, Params { stride: Some(2), execute: Some(true), block: Some(false), max_new: Some(1), ..Default::default() }));
+    ended.extend(msgs(0, 4));
+    let mut two = base.clone();
+    two.push(cap(Cp::Branch, 0, Params::default()));
+    two.push(cap(Cp::Handoff, 0, Params::default()));
+    two.extend(msgs(1, 4));
+    two.push(cap(Cp::AutoSchedule, 1, Params { stride: Some(1), execute: Some(false), ..Default::default() }));
+    let mut bigs = vec![ensure()];
+    bigs.extend(msgs(0, 2));
+    for (i, sz) in [8191usize, 8192, 8193, 100_000, 100_000, 100_000].iter().enumerate() {
+        bigs.push(cap(Cp::Append(4), 0, Params { big: Some(*sz), esc: i % 2 == 1, ..Default::default() }));
     }
-    base.push(Call::Cap { cp: Cp::Append(8), th: 0, p: Params::default() });
-    base.push(Call::Cap { cp: Cp::Checkpoint, th: 0, p: Params { stride: Some(2), ..Default::default() } });
-    let mut out = vec![];
-    for fault in [None, Some(Fault::Delete), Some(Fault::TearTail), Some(Fault::Empty)] {
-        for th in [0usize, 99] {
-            let mut c = base.clone();
-            if let Some(x) = fault {
-                c.push(Call::Fault { x, th: 0 });
-                c.push(Call::Restart);
-            }
-            for stride in [None, Some(0), Some(1), Some(2), Some(3), Some(u64::MAX)] {
-                for limit in [None, Some(0), Some(1), Some(32), Some(33), Some(u32::MAX)] {
-                    let p = Params { stride, limit, ..Default::default() };
-                    c.push(Call::Cap { cp: Cp::CutPoints, th, p: p.clone() });
-                    if limit.is_none() {
-                        c.push(Call::Cap { cp: Cp::CompactionStatus, th, p: p.clone() });
-                        for dry in [Some(true)] {
-                            for mx in [None, Some(0), Some(2), Some(33)] {
-                                let q = Params { stride, dry_run: dry, max_new: mx, ..Default::default() };
-                                c.push(Call::Cap { cp: Cp::Auto, th, p: q.clone() });
-                                c.push(Call::Cap { cp: Cp::AutoSchedule, th, p: q });
-                            }
-                        }
-                    }
-                    if stride.is_none() {
-                        c.push(Call::Cap { cp: Cp::SelectionStatus, th, p: p.clone() });
-                        c.push(Call::Cap { cp: Cp::CursorStatus, th, p: p.clone() });
-                        c.push(Call::Cap { cp: Cp::Replay, th, p });
+    vec![
+        ("empty_store", vec![]),
+        ("base", base.clone()),
+        ("inflight_job", inflight.clone()),
+        ("inflight_job_caches_deleted_restart", with(&inflight, vec![Call::Fault { x: Fault::Delete, th: 0 }, Call::Restart])),
+        ("inflight_job_restart", with(&inflight, vec![Call::Restart])),
+        ("backlog_larger_than_max_new", backlog),
+        ("all_cut_points_checkpointed", done),
+        ("job_ended_then_new_backlog", ended),
+        ("base_caches_deleted", with(&base, vec![Call::Fault { x: Fault::Delete, th: 0 }])),
+        ("base_caches_deleted_restart", with(&base, vec![Call::Fault { x: Fault::Delete, th: 0 }, Call::Restart])),
+        ("base_torn_sidecar_restart", with(&base, vec![Call::Fault { x: Fault::TearTail, th: 0 }, Call::Restart])),
+        ("base_empty_sidecar_restart", with(&base, vec![Call::Fault { x: Fault::Empty, th: 0 }, Call::Restart])),
+        ("base_stale_sidecar_restart", with(&base, vec![Call::Fault { x: Fault::CutLine, th: 0 }, Call::Restart])),
+        ("base_fresh_restart", with(&base, vec![Call::Restart])),
+        ("children_inflight_on_child", two),
+        ("frames_over_8k_and_over_256k_per_thread", bigs),
+    ]
+}
+
+const STRIDES: [Option<u64>; 6] = [None, Some(0), Some(1), Some(2), Some(3), Some(u64::MAX)];
+const LIMITS: [Option<u32>; 6] = [None, Some(0), Some(1), Some(32), Some(33), Some(u32::MAX)];
+const TRI: [Option<bool>; 3] = [None, Some(true), Some(false)];
+
+/// every request-parameter combination of the read-only / dry-run / no-op invocations on thread `th`
+/// (`pick` selects the unknown id when `th` names no thread)
+fn full_param_sweep(th: usize, pick: u64) -> Vec<Call> {
+    let mut c = vec![];
+    let base = Params { pick, ..Default::default() };
+    for cp in [Cp::List, Cp::Get, Cp::Subscribe, Cp::Replay, Cp::CursorStatus] {
+        c.push(cap(cp, th, base.clone()));
+    }
+    for stride in STRIDES {
+        c.push(cap(Cp::CompactionStatus, th, Params { stride, ..base.clone() }));
+        for limit in LIMITS {
+            c.push(cap(Cp::CutPoints, th, Params { stride, limit, ..base.clone() }));
+        }
+        let maxes: &[Option<u32>] = if stride == Some(0) { &[None, Some(2)] } else { &[None, Some(0), Some(1), Some(2), Some(33)] };
+        for max_new in maxes.iter().copied() {
+            // dry-run with every other parameter; the no-op (stride 0) also without dry_run
+            let drys: &[Option<bool>] = if stride == Some(0) { &TRI } else { &[Some(true)] };
+            for dry_run in drys {
+                c.push(cap(Cp::Auto, th, Params { stride, max_new, dry_run: *dry_run, ..base.clone() }));
+                for block in TRI {
+                    for execute in TRI {
+                        c.push(cap(Cp::AutoSchedule, th, Params { stride, max_new, dry_run: *dry_run, block, execute, ..base.clone() }));
                     }
                 }
             }
-            out.push(c);
+        }
+    }
+    for limit in LIMITS {
+        c.push(cap(Cp::SelectionStatus, th, Params { limit, ..base.clone() }));
+    }
+    c
+}
+
+/// one representative invocation of every capability (read-only ones AND the writers, which must fail
+/// without writing) for every unknown / path-shaped id
+fn id_sweep() -> Vec<Call> {
+    let mut c = vec![];
+    for pick in 0..UNKNOWN_IDS.len() as u64 {
+        let b = Params { pick, ..Default::default() };
+        for cp in [Cp::Get, Cp::Replay, Cp::CursorStatus, Cp::SelectionStatus, Cp::CompactionStatus, Cp::CutPoints] {
+            c.push(cap(cp, 99, b.clone()));
+        }
+        c.push(cap(Cp::CutPoints, 99, Params { stride: Some(2), limit: Some(1), ..b.clone() }));
+        c.push(cap(Cp::CompactionStatus, 99, Params { stride: Some(2), ..b.clone() }));
+        for cp in [Cp::Auto, Cp::AutoSchedule] {
+            c.push(cap(cp, 99, Params { stride: Some(2), dry_run: Some(true), ..b.clone() }));
+            c.push(cap(cp, 99, Params { stride: Some(0), ..b.clone() }));
+            c.push(cap(cp, 99, Params { stride: Some(2), ..b.clone() }));
+        }
+        for cp in [Cp::Append(4), Cp::Append(5), Cp::Append(8), Cp::Append(14), Cp::Branch, Cp::Handoff, Cp::Checkpoint, Cp::CursorRotate] {
+            c.push(cap(cp, 99, Params { stride: Some(2), ..b.clone() }));
+        }
+    }
+    c
+}
+
+fn sweep_cases() -> Vec<(String, Vec<Call>)> {
+    let mut out = vec![];
+    for (name, setup) in sweep_states() {
+        let th = if name == "children_inflight_on_child" { 1 } else { 0 };
+        let tail = vec![cap(Cp::Append(4), th, Params::default()), cap(Cp::CompactionStatus, th, Params { stride: Some(2), ..Default::default() })];
+        if name != "empty_store" {
+            let mut c = setup.clone();
+            c.extend(full_param_sweep(th, 0));
+            c.extend(tail.clone());
+            out.push((format!("sweep/{name}/known"), c));
+        }
+        let mut c = setup.clone();
+        c.extend(full_param_sweep(99, ID_EVENTS));
+        c.extend(tail.clone());
+        out.push((format!("sweep/{name}/id=../events"), c));
+        if ["empty_store", "base", "inflight_job", "base_caches_deleted_restart", "frames_over_8k_and_over_256k_per_thread"].contains(&name) {
+            let mut c = setup.clone();
+            c.extend(id_sweep());
+            c.extend(tail);
+            out.push((format!("sweep/{name}/all_ids"), c));
         }
     }
     out
 }
 
 fn call_json(c: &Call) -> serde_json::Value {
-    json!(format!("{c:?}"))
+    match c {
+        Call::Cap { th, p, .. } if *th >= 90 => json!(format!("{c:?} unknown_id={:?}", unknown_id(p.pick, None).chars().take(60).collect::<String>())),
+        _ => json!(format!("{c:?}")),
+    }
+}
+
+// =====================================================================================
+// log-level cases: EventLog::append alone, frames around the BufWriter capacity (8192)
+// =====================================================================================
+fn delta_event(sid: &str, seq: u64, total: usize, esc: bool) -> rip_kernel::Event {
+    let mk = |delta: String| rip_kernel::Event { id: format!("id-{seq:08}"), session_id: sid.to_string(), timestamp_ms: 1_700_000_000_000, seq, kind: rip_kernel::EventKind::OutputTextDelta { delta } };
+    let fixed = serde_json::to_string(&mk(String::new())).unwrap().len() + 1; // + newline
+    let (unit, unit_out) = if esc { ("a\n\"", 5) } else { ("a", 1) };
+    let want = total.saturating_sub(fixed);
+    let mut c = unit.repeat(want / unit_out);
+    c.push_str(&"b".repeat(want % unit_out));
+    mk(c)
+}
+
+fn push_violation(res: &mut RunResult, case_id: i64, what: String, class: &str, replay: serde_json::Value) {
+    if res.oracle_violations.len() < 40 {
+        res.oracle_violations.push(OracleViolation { case_id, what, class: class.into(), replay });
+    }
+}
+
+fn log_level_cases(a: &Args, res: &mut RunResult, base_id: i64) {
+    use rip_log::EventLog;
+    // L1: one handle; the file is inspected around every append and at every log.* point inside it
+    let sizes: Vec<usize> = vec![200, 4096, 8190, 8191, 8192, 8193, 8194, 8300, 16383, 16384, 16385, 24577, 65536, 100_000, 250_000];
+    for esc in [false, true] {
+        let sc = Scratch::new("c02log");
+        let path = sc.path().join("data").join("events.jsonl");
+        let log = EventLog::new(&path).expect("event log");
+        mon_set_path(Some(path.clone()));
+        for (i, total) in sizes.iter().enumerate() {
+            let ev = delta_event("s-big", i as u64, *total, esc);
+            let before = std::fs::read(&path).unwrap_or_default();
+            let r = std::panic::catch_unwind(std::panic::AssertUnwindSafe(|| log.append(&ev)));
+            let after = std::fs::read(&path).unwrap_or_default();
+            res.evaluations += 1;
+            res.oracle_checks += 1;
+            res.bump("log_level_appends");
+            let replay = json!({"kind": "log_level_append", "frame_line_bytes_incl_newline": total, "escapes": esc, "frames_before": i});
+            let (hv, hp) = mon_drain();
+            res.oracle_checks += hp;
+            res.bump_by("hook_points_checked_inside_append", hp);
+            for (what, class) in hv {
+                push_violation(res, base_id + i as i64, format!("EventLog::append of a {total}-byte frame line: {what}"), &class, replay.clone());
+            }
+            if !matches!(r, Ok(Ok(()))) {
+                push_violation(res, base_id + i as i64, format!("EventLog::append of a {total}-byte frame failed / panicked"), "panic", replay.clone());
+                continue;
+            }
+            let want = {
+                let mut l = serde_json::to_vec(&ev).unwrap();
+                l.push(b'\n');
+                l
+            };
+            if after.len() < before.len() || after[..before.len()] != before[..] {
+                push_violation(res, base_id + i as i64, format!("append of a {total}-byte frame: previous content is no longer a prefix"), "log_prefix_changed", replay.clone());
+            } else if after[before.len()..] != want[..] || want.len() != *total {
+                push_violation(res, base_id + i as i64, format!("append of a {total}-byte frame added {} bytes that are not exactly the frame and its newline", after.len() - before.len()), "partial_frame_appended", replay.clone());
+            }
+        }
+        match log.replay() {
+            Ok(evs) if evs.len() == sizes.len() => {}
+            other => push_violation(res, base_id, format!("replay after the big appends: {:?}", other.map(|e| e.len())), "partial_frame_appended", json!({"kind": "log_level_append", "escapes": esc})),
+        }
+        mon_set_path(None);
+    }
+    // L2: a second O_APPEND handle on the same file (a restarted authority while work of the old one
+    // finishes; local CLI next to the daemon) appends small frames while big ones are being appended.
+    // write(2) calls on one inode are serialised by the kernel, so this detects - independently of the
+    // hook - every append that reaches the file in more than one write(2).  (A free-running READER
+    // cannot: on ext4 a concurrent stat/read sees a single 100 kB write(2) partially done.)
+    let rounds = if a.thorough() { 4 } else { 1 };
+    for round in 0..rounds {
+        let sc = Scratch::new("c02race");
+        let path = sc.path().join("data").join("events.jsonl");
+        let big = std::sync::Arc::new(EventLog::new(&path).expect("event log"));
+        let small = EventLog::new(&path).expect("event log");
+        let n_big = 96u64;
+        let done = std::sync::Arc::new(std::sync::atomic::AtomicBool::new(false));
+        let (b2, d2) = (big.clone(), done.clone());
+        let th = std::thread::spawn(move || {
+            for i in 0..n_big {
+                let total = [9000usize, 20_000, 70_000, 250_000][(i % 4) as usize];
+                let _ = b2.append(&delta_event("s-big", i, total, i % 2 == 0));
+            }
+            d2.store(true, std::sync::atomic::Ordering::SeqCst);
+        });
+        let mut n_small = 0u64;
+        while !done.load(std::sync::atomic::Ordering::SeqCst) && n_small < 150_000 {
+            let _ = small.append(&delta_event("s-small", n_small, 100, false));
+            n_small += 1;
+        }
+        let _ = th.join();
+        let bytes = std::fs::read(&path).unwrap_or_default();
+        let mut bad = 0u64;
+        let mut first = None;
+        let mut lines = 0u64;
+        for (i, l) in bytes.split(|b| *b == b'\n').enumerate() {
+            if l.is_empty() {
+                continue;
+            }
+            lines += 1;
+            if serde_json::from_slice::<rip_kernel::Event>(l).is_err() {
+                bad += 1;
+                first.get_or_insert((i, l.len()));
+            }
+        }
+        res.evaluations += 1;
+        res.oracle_checks += 1;
+        res.bump("two_handle_races");
+        res.bump_by("two_handle_race_small_frames", n_small);
+        if bad > 0 || lines != n_big + n_small || !whole_lines(&bytes) {
+            push_violation(
+                res,
+                base_id + 100 + round,
+                format!("two EventLog handles on one file, {n_big} frames of 9 kB..250 kB against {n_small} small ones: {bad} of {lines} lines are not whole JSON frames (first: line {:?}); a frame reached the file in more than one write(2)", first),
+                "frames_interleaved_between_two_handles",
+                json!({"kind": "two_handle_race", "big_frames": n_big, "sizes": [9000, 20000, 70000, 250000], "round": round}),
+            );
+        }
+    }
+}
+
+// =====================================================================================
+// router-level cases: the read-only / dry-run / no-op ROUTES of the real axum router, ids
+// percent-encoded (`..%2Fevents` arrives as `../events`), on stores prepared through the API
+// =====================================================================================
+fn pct(s: &str) -> String {
+    let mut o = String::new();
+    for b in s.bytes() {
+        if b.is_ascii_alphanumeric() || b == b'-' || b == b'_' || b == b'.' || b == b'~' {
+            o.push(b as char);
+        } else {
+            o.push_str(&format!("%{b:02X}"));
+        }
+    }
+    o
+}
+
+struct Req {
+    method: &'static str,
+    uri: String,
+    body: Option<String>,
+    silent: bool, // must add nothing at all (else: prefix + whole frames)
+}
+
+fn router_requests(known: Option<&String>, full: bool) -> Vec<Req> {
+    let mut v = vec![];
+    let get = |uri: String| Req { method: "GET", uri, body: None, silent: true };
+    let post = |uri: String, body: serde_json::Value, silent: bool| Req { method: "POST", uri, body: Some(body.to_string()), silent };
+    for u in ["/threads", "/tasks", "/config/doctor", "/openapi.json", "/nope"] {
+        v.push(get(u.to_string()));
+    }
+    let mut ids: Vec<(String, bool)> = vec![];
+    if let Some(k) = known {
+        ids.push((k.clone(), true));
+    }
+    for i in 0..UNKNOWN_IDS.len() as u64 {
+        let id = unknown_id(i, known);
+        if id.len() < 3000 {
+            ids.push((id, false));
+        }
+    }
+    let who = json!({"actor_id": "user", "origin": "harness"});
+    let with = |extra: serde_json::Value| {
+        let mut m = who.as_object().unwrap().clone();
+        for (k, x) in extra.as_object().unwrap() {
+            m.insert(k.clone(), x.clone());
+        }
+        serde_json::Value::Object(m)
+    };
+    for (id, is_known) in &ids {
+        // raw `.` / `..` segments are sent as they are (axum does not normalise them), everything else encoded
+        let e = if id == "." || id == ".." { id.clone() } else { pct(id) };
+        if e.is_empty() {
+            continue;
+        }
+        v.push(get(format!("/threads/{e}")));
+        v.push(get(format!("/threads/{e}/events")));
+        v.push(get(format!("/sessions/{e}/events")));
+        v.push(get(format!("/tasks/{e}")));
+        v.push(get(format!("/tasks/{e}/output")));
+        v.push(get(format!("/tasks/{e}/events")));
+        let strides: Vec<serde_json::Value> = if *is_known && full { vec![json!(null), json!(0), json!(1), json!(2), json!(3), json!(u64::MAX)] } else { vec![json!(null), json!(2), json!(0)] };
+        for st in &strides {
+            v.push(post(format!("/threads/{e}/compaction-status"), json!({"stride_messages": st}), true));
+            for lim in [json!(null), json!(0), json!(1), json!(33)] {
+                v.push(post(format!("/threads/{e}/compaction-cut-points"), json!({"stride_messages": st, "limit": lim}), true));
+            }
+            let maxes: Vec<serde_json::Value> = if *is_known && full { vec![json!(null), json!(0), json!(2), json!(33)] } else { vec![json!(null)] };
+            for mx in &maxes {
+                v.push(post(format!("/threads/{e}/compaction-auto"), with(json!({"stride_messages": st, "max_new_checkpoints": mx, "dry_run": true})), true));
+                let tri: Vec<serde_json::Value> = if *is_known { vec![json!(null), json!(true), json!(false)] } else { vec![json!(null)] };
+                for bl in &tri {
+                    for ex in &tri {
+                        v.push(post(format!("/threads/{e}/compaction-auto-schedule"), with(json!({"stride_messages": st, "max_new_checkpoints": mx, "dry_run": true, "block_on_inflight": bl, "execute": ex})), true));
+                    }
+                }
+            }
+        }
+        // the no-op: stride 0 without dry_run
+        v.push(post(format!("/threads/{e}/compaction-auto"), with(json!({"stride_messages": 0})), true));
+        v.push(post(format!("/threads/{e}/compaction-auto-schedule"), with(json!({"stride_messages": 0})), true));
+        v.push(post(format!("/threads/{e}/provider-cursor-status"), json!({}), true));
+        for lim in [json!(null), json!(0), json!(1), json!(u32::MAX)] {
+            v.push(post(format!("/threads/{e}/context-selection-status"), json!({"limit": lim}), true));
+        }
+        // malformed bodies
+        for route in ["compaction-status", "compaction-cut-points", "compaction-auto", "compaction-auto-schedule", "context-selection-status", "provider-cursor-status"] {
+            v.push(Req { method: "POST", uri: format!("/threads/{e}/{route}"), body: Some("{not json".into()), silent: true });
+            v.push(post(format!("/threads/{e}/{route}"), json!({"stride_messages": -1, "limit": "x"}), true));
+        }
+        if !*is_known {
+            // writers aimed at an id that names no thread: must fail without writing
+            v.push(post(format!("/threads/{e}/messages"), json!({"content": "hello"}), true));
+            v.push(post(format!("/threads/{e}/branch"), json!({"actor_id": "user", "origin": "harness"}), true));
+            v.push(post(format!("/threads/{e}/handoff"), json!({"summary_markdown": "# s", "actor_id": "user", "origin": "harness"}), true));
+            v.push(post(format!("/threads/{e}/compaction-checkpoint"), json!({"summary_markdown": "# s", "stride_messages": 2, "actor_id": "user", "origin": "harness"}), true));
+            v.push(post(format!("/threads/{e}/provider-cursor-rotate"), json!({"actor_id": "user", "origin": "harness"}), true));
+            v.push(post(format!("/threads/{e}/compaction-auto"), with(json!({"stride_messages": 2})), true));
+            v.push(post(format!("/threads/{e}/compaction-auto-schedule"), with(json!({"stride_messages": 2})), true));
+            v.push(post(format!("/sessions/{e}/input"), json!({"input": "x"}), true));
+            v.push(post(format!("/sessions/{e}/cancel"), json!({}), true));
+            v.push(post(format!("/tasks/{e}/cancel"), json!({}), true));
+        }
+    }
+    v
+}
+
+fn router_cases(a: &Args, res: &mut RunResult, base_id: i64) {
+    let states = sweep_states();
+    let pick: &[&str] = if a.thorough() {
+        &["empty_store", "base", "inflight_job", "inflight_job_caches_deleted_restart", "backlog_larger_than_max_new", "all_cut_points_checkpointed", "base_torn_sidecar_restart", "children_inflight_on_child"]
+    } else {
+        &["base", "inflight_job", "inflight_job_caches_deleted_restart"]
+    };
+    let rt = tokio::runtime::Builder::new_multi_thread().worker_threads(2).enable_all().build().expect("runtime");
+    for (k, name) in pick.iter().enumerate() {
+        let setup = &states.iter().find(|s| s.0 == *name).expect("state").1;
+        let sc = Scratch::new("c02http");
+        let mut env = Env::open(sc.path());
+        let mut out = new_outcome();
+        mon_set_path(Some(env.log_path()));
+        for call in setup {
+            apply_call(&mut env, call, &mut out, &mut None);
+        }
+        let (root, data, ws, log_path) = (env.root.clone(), env.data_dir.clone(), env.ws.clone(), env.log_path());
+        let known = created_ids(&parse_log(&env.log_bytes()).unwrap_or_default()).first().cloned();
+        drop(env);
+        let before_build = std::fs::read(&log_path).unwrap_or_default();
+        let reqs = router_requests(known.as_ref(), k == 0 || a.thorough() || *name == "inflight_job");
+        let case_id = base_id + k as i64;
+        let mut viol: Vec<(String, String, serde_json::Value)> = vec![];
+        let mut checks = 0u64;
+        let mut statuses: std::collections::BTreeMap<u16, u64> = Default::default();
+        let r = std::panic::catch_unwind(std::panic::AssertUnwindSafe(|| {
+            rt.block_on(async {
+                use http_body_util::BodyExt;
+                use tower::ServiceExt;
+                let app = ripd::verif::build_app(data.clone(), ws.clone(), None);
+                let after_build = std::fs::read(&log_path).unwrap_or_default();
+                checks += 1;
+                if after_build != before_build {
+                    viol.push(("building the router (authority start) changed the truth log".into(), "log_changed_by_restart".into(), json!({"kind": "router", "state": name})));
+                }
+                for rq in &reqs {
+                    let before = std::fs::read(&log_path).unwrap_or_default();
+                    let tree_before = tree_snapshot(&root);
+                    let b = axum::http::Request::builder().method(rq.method).uri(rq.uri.as_str());
+                    let built = match &rq.body {
+                        Some(t) => b.header("content-type", "application/json").body(axum::body::Body::from(t.clone())),
+                        None => b.body(axum::body::Body::empty()),
+                    };
+                    let Ok(req) = built else {
+                        *statuses.entry(0).or_default() += 1;
+                        continue;
+                    };
+                    let resp = app.clone().oneshot(req).await.expect("infallible");
+                    let st = resp.status().as_u16();
+                    *statuses.entry(st).or_default() += 1;
+                    // read what is there (an SSE body never ends: stop at the first quiet 150 ms)
+                    let mut body = resp.into_body();
+                    let mut got = 0usize;
+                    while let Ok(Some(Ok(fr))) = tokio::time::timeout(std::time::Duration::from_millis(150), body.frame()).await {
+                        got += fr.data_ref().map(|d| d.len()).unwrap_or(0);
+                        if got > 4_000_000 {
+                            break;
+                        }
+                    }
+                    drop(body);
+                    let after = std::fs::read(&log_path).unwrap_or_default();
+                    checks += 1;
+                    let replay = json!({"kind": "router", "state": name, "method": rq.method, "uri": rq.uri.chars().take(300).collect::<String>(), "body": rq.body, "status": st});
+                    let label = format!("{} {} -> {st}", rq.method, rq.uri.chars().take(120).collect::<String>());
+                    if after.len() < before.len() || after[..before.len()] != before[..] {
+                        viol.push((format!("{label}: previous log content is no longer a prefix ({} -> {} bytes)", before.len(), after.len()), "log_prefix_changed".into(), replay));
+                    } else if parse_log(&after[before.len()..]).is_err() {
+                        viol.push((format!("{label}: appended bytes are not whole frames"), "partial_frame_appended".into(), replay));
+                    } else if rq.silent && after.len() != before.len() {
+                        let first = parse_log(&after[before.len()..]).ok().and_then(|f| f.first().map(|h| ETYPES[h.code as usize]));
+                        viol.push((format!("{label}: a read-only / dry-run / no-op / failing request appended {} bytes (first frame: {first:?})", after.len() - before.len()), "silent_request_appended".into(), replay));
+                    } else if let Some(d) = tree_diff(&tree_before, &tree_snapshot(&root)) {
+                        viol.push((format!("{label}: the request {d} outside data/continuity_streams/"), "silent_invocation_wrote_outside_cache_dir".into(), replay));
+                    }
+                    if viol.len() >= 5 {
+                        break;
+                    }
+                }
+            })
+        }));
+        mon_set_path(None);
+        res.evaluations += 1;
+        res.oracle_checks += checks;
+        res.bump_by("router_requests", checks.saturating_sub(1));
+        for (st, n) in statuses {
+            res.bump_by(&format!("router_status={st}"), n);
+        }
+        if r.is_err() {
+            res.impl_panics += 1;
+            push_violation(res, case_id, format!("router case {name}: panic"), "panic", json!({"kind": "router", "state": name}));
+        }
+        for (what, class, replay) in viol {
+            push_violation(res, case_id, format!("router/{name}: {what}"), &class, replay);
+        }
+    }
 }
 
 fn main() {
     let a = parse_args();
     let mut res = RunResult::new("C02", &a);
-    res.rule = "case = history of ContinuityStore capability calls (17 capabilities, 7 append kinds, every selector / summary / stride / limit / dry_run / execute combination, unknown + malformed thread ids), sidecar faults (delete all caches, torn tail, empty) and restarts; events.jsonl is read before and after EVERY call; non-trivial = at least one appending call, one silent call and one fault or restart; distinct by hash of the call list".into();
+    res.rule = "case = history of ContinuityStore capability calls (17 capabilities, 7 append kinds, every selector / summary / stride / limit / dry_run / execute / block_on_inflight combination, 40 unknown / malformed / path-shaped thread ids, frames of 8190..100000 bytes), sidecar faults (delete all caches, torn tail, empty, stale prefix) and restarts; 16 named store states (in-flight job, backlog > max_new, all checkpointed, caches deleted / corrupt, restart, children, > 256 KiB thread) x every parameter combination of the read-only / dry-run / no-op invocations on a known id and on `../events`; events.jsonl is read before and after EVERY call and at every log.* hook point inside EventLog::append; non-trivial = at least one appending call, one silent call and one fault or restart; distinct by hash of the call list; plus log-level cases (frames around the BufWriter capacity, second O_APPEND handle) and router-level cases (percent-encoded ids through the real axum router), oracle only".into();
     let n = if a.thorough() { 1500 } else { 110 };
     let mut r = Rng::new(a.seed);
-    let mut w = CaseWriter::new(&a.out, "Model.Frames Model.Log Model.ContStore", "check_case_c02", "model_obs_c02", 12);
+    let mut w = CaseWriter::new(&a.out, "Model.Frames Model.Log Model.ContStore", "check_case_c02", "model_obs_c02", 8);
     let mut distinct = Distinct::default();
-    let mut all: Vec<Vec<Call>> = sweep_cases();
+    install_hook();
+    let mut all: Vec<(String, Vec<Call>)> = sweep_cases();
     for i in 0..n {
-        all.push(gen_case(&mut r, i % 8 == 7));
+        all.push((format!("random/{i}"), gen_case(&mut r, i % 8 == 7)));
     }
-    for (i, calls) in all.iter().enumerate() {
+    for (i, (label, calls)) in all.iter().enumerate() {
         let got = std::panic::catch_unwind(std::panic::AssertUnwindSafe(|| run_case(calls, Some(&mut res))));
         res.evaluations += 1;
         match got {
             Err(_) => {
                 res.impl_panics += 1;
-                res.oracle_violations.push(OracleViolation { case_id: i as i64, what: "a capability panicked".into(), class: "panic".into(), replay: json!(calls.iter().map(call_json).collect::<Vec<_>>()) });
+                res.oracle_violations.push(OracleViolation { case_id: i as i64, what: format!("{label}: a capability panicked"), class: "panic".into(), replay: json!(calls.iter().map(call_json).collect::<Vec<_>>()) });
             }
             Ok(o) => {
-                res.oracle_checks += o.oracle_checks;
+                res.oracle_checks += o.oracle_checks + o.hook_points;
+                res.bump_by("hook_points_checked_inside_append", o.hook_points);
                 res.bump_by("frames_in_final_logs", o.final_frames as u64);
+                for l in &o.big_lines {
+                    res.bump(&format!("frame_line_bytes={}", if *l > 50_000 { "100000".to_string() } else { l.to_string() }));
+                }
                 for (what, class) in &o.violations {
                     let cls = class.clone();
-                    let shrunk = shrink_vec(calls.clone(), |cs| {
-                        std::panic::catch_unwind(std::panic::AssertUnwindSafe(|| run_case(cs, None))).map(|o| o.violations.iter().any(|v| v.1 == cls)).unwrap_or(false)
-                    });
-                    res.oracle_violations.push(OracleViolation { case_id: i as i64, what: what.clone(), class: class.clone(), replay: json!(shrunk.iter().map(call_json).collect::<Vec<_>>()) });
+                    // shrinking re-runs the history: skip it for the long sweeps once a few are reported
+                    let shrunk = if res.oracle_violations.len() < 6 {
+                        shrink_vec(calls.clone(), |cs| {
+                            std::panic::catch_unwind(std::panic::AssertUnwindSafe(|| run_case(cs, None))).map(|o| o.violations.iter().any(|v| v.1 == cls)).unwrap_or(false)
+                        })
+                    } else {
+                        calls.clone()
+                    };
+                    res.oracle_violations.push(OracleViolation { case_id: i as i64, what: format!("{label}: {what}"), class: class.clone(), replay: json!(shrunk.iter().map(call_json).collect::<Vec<_>>()) });
                     break;
                 }
                 if o.unmodelled {
@@ -472,20 +1116,29 @@ fn main() {
                     let term = format!("{{| c2_calls := [{}]; c2_expect := {} |}}", o.coq_calls.join("; "), coq_list_n(&o.obs));
                     let id = w.push(term);
                     if res.case_index.len() < 3000 {
-                        res.case_index.insert(id.to_string(), json!(calls.iter().map(call_json).collect::<Vec<_>>()));
+                        let shown: Vec<_> = if calls.len() > 60 { vec![json!(format!("{label} ({} calls; see sweep_cases in harness/src/bin/c02.rs)", calls.len()))] } else { calls.iter().map(call_json).collect() };
+                        res.case_index.insert(id.to_string(), json!(shown));
                     }
                 }
                 let has_fault = calls.iter().any(|c| !matches!(c, Call::Cap { .. }));
                 if has_fault && o.final_frames > 1 {
                     distinct.add(&format!("{calls:?}"));
                 }
-                if res.samples.len() < 2 && i >= 8 {
+                if res.samples.len() < 2 && label.starts_with("random/") {
                     res.samples.push(json!(calls.iter().take(8).map(call_json).collect::<Vec<_>>()));
                 }
             }
         }
+        if res.oracle_violations.len() >= 25 {
+            res.notes.push("stopped after 25 oracle violations".into());
+            break;
+        }
     }
     w.flush();
+    let base = res.evaluations as i64;
+    log_level_cases(&a, &mut res, base);
+    router_cases(&a, &mut res, base + 1000);
+    rip_kernel::verif::set_hook(None);
     res.distinct_nontrivial = distinct.count();
     res.case_files = w.files.iter().map(|p| p.display().to_string()).collect();
     res.write(&a.out);
